@@ -22,7 +22,7 @@ ANCHORS = ["decaylanguage.utils.particleutils:charge_conjugate_name", "decaylang
            "decaylanguage.decay.decay:DecayMode.charge_conjugate", "decaylanguage.dec.dec:ChargeConjugateReplacement.particle"]
 WORKERS = {"quick": 4, "thorough": 16}
 WTESTS = {"groups": ['conj'], "tests": ['tests/decay', 'tests/utils', 'tests/dec/test_dec.py']}
-REQUIRED = {"kind:has-antiparticle": 300, "kind:self-conjugate": 50, "kind:in-table-no-conjugate": 10, "kind:unknown-label": 50,
+REQUIRED = {"visitor-applied-twice-to-one-tree": 5, "cross-layer-file:both-tables-read-with-details:conjugate-first": 2, "cross-layer-file:both-tables-read-with-details:source-first": 2, "kind:has-antiparticle": 300, "kind:self-conjugate": 50, "kind:in-table-no-conjugate": 10, "kind:unknown-label": 50,
             "pdg-route": 500, "multiplicity>=4": 20, "metadata>=2-user-keys": 20, "cross-layer-file": 10, "evtgen-only-spelling-through-the-pdg-route": 100, "cross-layer-file-with-the-cdecay-statement-twice": 3, "particle-and-antiparticle-with-unequal-multiplicities": 20, "names-again-after-an-ampgen-read-in-the-same-process": 100, "cross-layer-file-with-copy": 5, "cross-layer-file-with-sourceless-cdecay:sorting-first": 3, "returned-value-mutated-then-again": 50, "cache-cold": 1, "cache-evicting": 1,
             "C04.name.matches_table_oracle": 1000, "C04.daughters.each_particle_with_multiplicity": 100, "C04.mode.bf_and_metadata_kept": 100}
 EXHAUSTIVE_NOTE = "every EvtGen name and every PDG name of the installed tables is visited by every worker subset union (sharded), both cache states"
@@ -197,6 +197,52 @@ def check_file(ctx, mother, lines):
         # and daughter by daughter, in order, against the table oracle
         if g != [names.conj(d) for d in ds]:
             ctx.violate("cdecay-file:order-or-name", f"CDecay line {g} expected {[names.conj(d) for d in ds]}", wit)
+    # both tables of the same object read with their details (branching fraction, daughters), in either order
+    order = [mother, cm] if ctx.rng.random() < 0.5 else [cm, mother]
+    ctx.hit("cross-layer-file:both-tables-read-with-details:" + ("source-first" if order[0] == mother else "conjugate-first"))
+
+    def details():
+        out = {}
+        for m in order:
+            out[m] = [(d["bf"], list(d["fs"])) for d in p.build_decay_chains(m, stable_particles=[x for _, ds in lines for x in ds] + [names.conj(x) for _, ds in lines for x in ds])[m]]
+        return out
+
+    okd, det = ctx.guard("cdecay-file:details", wit, details)
+    if okd:
+        want = {mother: [(float(bf), list(ds)) for bf, ds in lines], cm: [(float(bf), [names.conj(d) for d in ds]) for bf, ds in lines]}
+        for m in order:
+            if det[m] != want[m]:
+                ctx.violate("cdecay-file:details-differ:" + ("source" if m == mother else "conjugate") + "-table", f"read in the order {order}: {m} gives {det[m]} expected {want[m]}", wit)
+    # the visitor itself, on a hand-built tree as in its docstring: once = conjugate, once more (the same tree) = original
+    known = [(bf, ds) for bf, ds in lines if all("ChargeConj(" not in names.conj(d) for d in ds)]
+    if known and "ChargeConj(" not in cm:
+        from lark import Token, Tree  # noqa: PLC0415
+
+        from decaylanguage.dec.dec import ChargeConjugateReplacement  # noqa: PLC0415
+
+        def visitor_twice():
+            t = Tree("decay", [Tree("particle", [Token("LABEL", mother)])] + [
+                Tree("decayline", [Tree("value", [Token("SIGNED_NUMBER", bf)])] + [Tree("particle", [Token("LABEL", d)]) for d in ds] + [Tree("model", [Token("MODEL_NAME", "PHSP")])])
+                for bf, ds in known])
+
+            def read(t):
+                return [t.children[0].children[0].value] + [[c.children[0].value for c in ln.children if c.data == "particle"] for ln in t.children[1:]]
+
+            ChargeConjugateReplacement().visit(t)
+            once = read(t)
+            ChargeConjugateReplacement(charge_conj_defs={}).visit(t)
+            return once, read(t)
+
+        okv, res = ctx.guard("visitor-on-a-hand-built-tree", wit, visitor_twice)
+        if okv:
+            ctx.hit("visitor-applied-twice-to-one-tree")
+            once, twice_ = res
+            w1 = [cm] + [[names.conj(d) for d in ds] for _, ds in known]
+            w2 = [mother] + [list(ds) for _, ds in known]
+            if once != w1:
+                ctx.violate("visitor:first-visit", f"tree after one visit {once} expected {w1}", wit)
+            elif twice_ != w2:
+                ctx.violate("visitor:second-visit-is-not-the-original", f"tree after two visits {twice_} expected {w2}", wit)
     for v in contracts.drain():
         ctx.violate(v["mechanism"], v["message"], wit)
     ctx.sample({"file": text, "conjugated_lines": got})
